@@ -155,11 +155,12 @@ Proof.
 Qed.
 
 Lemma cinv_res_ext : forall run res res' j c k,
-  (forall r, uses c r = true -> nth r res' rdummy = nth r res rdummy) ->
+  (forall r, uses c r = true -> r_pos (nth r res' rdummy) = r_pos (nth r res rdummy)
+                                /\ r_wrote (nth r res' rdummy) = r_wrote (nth r res rdummy)) ->
   cinv run res j c k -> cinv run res' j c k.
 Proof.
   intros run res res' j c k Hext [A B C D E F [done [T [G1 [G2 [G3 G4]]]]]]. constructor; auto.
-  exists done, T. repeat split; auto. intros r Hr. rewrite (Hext r Hr). auto.
+  exists done, T. repeat split; auto. intros r Hr. destruct (Hext r Hr) as [H1 H2]. rewrite H1, H2. auto.
 Qed.
 
 (** the running caller has neither a table entry nor a request in flight *)
@@ -495,7 +496,7 @@ Proof.
       * intros r Hr. assert (r <> ri) by (intro; subst; congruence). rewrite K3 by auto. apply G4; auto.
     + apply cinv_other with (run := None); try congruence.
       apply cinv_res_ext with (res := s_res st).
-      * intros r Hr. apply nth_upd_other. intro; subst r.
+      * intros r Hr. rewrite nth_upd_other; auto. intro; subst r.
         assert (uses cj ri = false) by (eapply (private_spec cs i j'); eauto). congruence.
       * eapply (i_callers _ _ _ _ _ _ HI); eauto.
   - rewrite upd_length. apply (i_rlen _ _ _ _ _ _ HI).
